@@ -448,7 +448,16 @@ func Run(r *fw.Run) {
 	}
 	for _, sc := range c02.Scopes(true) {
 		sc := sc
-		if r.Quick() && sc.Name != "S-stack" && sc.Name != "S-many" {
+		if r.Quick() && sc.Name != "S-stack" && sc.Name != "S-many" && sc.Name != "S-multipeer" && sc.Name != "S-pieces" {
+			continue
+		}
+		if r.Quick() && (sc.Name == "S-multipeer" || sc.Name == "S-pieces") {
+			st := map[string]int{"S-multipeer": 25, "S-pieces": 3}[sc.Name]
+			fw.Explore(r, fmt.Sprintf("C02/%s(1/%d)", sc.Name, st), sc.Mode, func(c *fw.Ctx) *wm.World {
+				w := ToPods(sc.Gen(c))
+				c.Stride(st)
+				return w
+			}, func(w *wm.World, x *fw.Rec) { evalWorld(w, x, mirror) })
 			continue
 		}
 		if r.Quick() && sc.Name == "S-stack" {
